@@ -27,7 +27,7 @@ theorem bad_enabler_no_effect (env : Env) (b : Bucket) (we renew cancel : Bytes)
         obtain ⟨p, hp, hne⟩ := hbad
         exact hne (h p hp)
       simp only [this]
-      exact Or.inl trivial
+      exact Or.inl (by simp)
   unfold rtw
   rcases hc with hc | hc <;> simp [hc]
 
@@ -119,19 +119,20 @@ def cexRequest : List (Nat × TW) :=
 
 def cexEnv : Env := { h := id, nodeid := zeros 20, now := 0, avail := 0, precheck := false }
 
+set_option maxRecDepth 20000 in
 /-- **negation witness for the unchanged tree** (`precheck = false`): the request `cexRequest` on an
     empty storage index raises `DataTooLargeError`, yet share 0 has been created and written and
     share 1 has been created empty — some writes applied, not all.  (Observed identically on the real
     `StorageServer`: harness/props/c24.py, corpus case `partial-write`.) -/
 theorem all_or_nothing_counterexample :
-    (rtw cexEnv [] (zeros 32) [] [] cexRequest [] false).out = .error .dataTooLarge ∧
+    (rtw cexEnv [] (zeros 32) [] [] cexRequest [] false).err = some .dataTooLarge ∧
     (rtw cexEnv [] (zeros 32) [] [] cexRequest [] false).bucket ≠ [] ∧
     absBucket (rtw cexEnv [] (zeros 32) [] [] cexRequest [] false).bucket = [(0, [88, 88, 88, 88]), (1, [])] := by
   decide
 
 /-- the repaired server refuses the same request without touching anything -/
 theorem counterexample_repaired :
-    (rtw { cexEnv with precheck := true } [] (zeros 32) [] [] cexRequest [] false).out = .error .dataTooLarge ∧
+    (rtw { cexEnv with precheck := true } [] (zeros 32) [] [] cexRequest [] false).err = some .dataTooLarge ∧
     (rtw { cexEnv with precheck := true } [] (zeros 32) [] [] cexRequest [] false).bucket = [] := by
   decide
 
